@@ -153,6 +153,11 @@ def run(ctx):
                     if R.random() < 0.3:
                         st["TO_TIMEZONE"] = "UTC"
                     jobs.append((R.choice(["parse", "gdd"]), s, {"languages": ["en"], "settings": st}, None)); expect.append(None)
+    # composite directives that carry a year of their own (%x, %c, ISO week dates): a leap day must not make an exception escape
+    for s_, fm in [("02/29/24", "%x"), ("Thu Feb 29 10:00:00 2024", "%c"), ("2024-09-4", "%G-%V-%u"), ("02/28/24", "%x"), ("060 10:30", "%j %H:%M"), ("2024 060", "%Y %j"),
+                   ("29 Feb 10:30", "%d %b %H:%M"), ("Feb 29", "%b %d")]:
+        for st in ({}, {"PREFER_DAY_OF_MONTH": "last"}, {"TIMEZONE": "UTC", "TO_TIMEZONE": "+0530"}):
+            jobs.append((R.choice(["parse", "gdd"]), s_, {"languages": ["en"], "settings": dict(st, RELATIVE_BASE=D(2020, 5, 17, 12, 0))}, [fm])); expect.append(None)
     # aware reference times (utc, fixed offsets, IANA zones) × every preference × strings that leave the date, the year or the time open
     import datetime as _dt
     import pytz as _pytz
